@@ -221,6 +221,8 @@ static const char *cv_name(const void *cv, char *tmp) {
 static long n_switch = 0, n_bgdone = 0, n_bgwait = 0, n_wwait = 0, n_grp_multi = 0, n_grp = 0, n_l0max = 0, n_verchg = 0;
 static volatile long n_spur = 0, n_dropped = 0;
 static uint64_t last_logn = 0; static int last_bgs = 0; static const void *last_ver = NULL;
+#define MAXBK 64
+static struct { char path[1300]; int tid, opid; } g_backups[MAXBK]; static int g_nbackups = 0;
 static int p_poolwait = 0;   /* usec: every wait on a condition variable other than the DB's is preceded by a sleep (the waiter holds its mutex): widens the check-then-wait window of the thread pool */
 static int p_failsync = 0;   /* fault injection: the n-th fsync/fdatasync of a table file fails with EIO (0 = off) */
 static volatile long n_tsync = 0; static unsigned char g_istable[4096];
@@ -572,6 +574,10 @@ static void run_op(kth_t *t, int opid, char *line) {
     snprintf(path, sizeof(path), "%s_bk_%s", g_dir, a[1]);
     rc = ldb_backup(g_db, path);
     c = tick(); sb_printf(h, "RET %d %d %ld %d\n", t->tid, opid, c, rc);
+    if (rc == LDB_OK) {
+      int slot = __atomic_fetch_add(&g_nbackups, 1, __ATOMIC_SEQ_CST);
+      if (slot < MAXBK) { snprintf(g_backups[slot].path, sizeof(g_backups[slot].path), "%s", path); g_backups[slot].tid = t->tid; g_backups[slot].opid = opid; }
+    }
   } else if (!strcmp(a[0], "holdmutex")) {
     /* self-test of the watchdog: take db->mutex and never release it */
     ldb_mutex_lock(&g_db->mutex);
@@ -706,6 +712,23 @@ static void parse_params(int argc, char **argv) {
   }
 }
 
+/* every successful ldb_backup of the run is opened after the close and dumped: BACKUP <tid> <opid> rc=<open rc> <scan> */
+static void dump_backups(void) {
+  int i, n = g_nbackups < MAXBK ? g_nbackups : MAXBK;
+  for (i = 0; i < n; i++) {
+    ldb_dbopt_t o = g_opt; ldb_t *db = NULL; int rc;
+    o.create_if_missing = 0; o.paranoid_checks = 1;
+    rc = ldb_open(g_backups[i].path, &o, &db);
+    if (rc != LDB_OK) { sb_printf(&g_main, "BACKUP %d %d rc=%d . status=-1\n", g_backups[i].tid, g_backups[i].opid, rc); continue; }
+    {
+      ldb_iter_t *it = ldb_iterator(db, NULL); sbuf b; memset(&b, 0, sizeof(b));
+      scan_iter(&b, it); ldb_iter_destroy(it);
+      sb_printf(&g_main, "BACKUP %d %d rc=0 %s\n", g_backups[i].tid, g_backups[i].opid, b.p ? b.p : ""); free(b.p);
+    }
+    ldb_close(db);
+  }
+}
+
 static void final_dump(const char *label) {
   ldb_iter_t *it = ldb_iterator(g_db, NULL); sbuf b; memset(&b, 0, sizeof(b));
   scan_iter(&b, it); ldb_iter_destroy(it);
@@ -766,6 +789,7 @@ int main(int argc, char **argv) {
   c = tick(); sb_printf(&g_main, "RET 99 0 %ld 0\n", c);
   sb_printf(&g_main, "CLOSED\n");
   g_on = 0;
+  dump_backups();
   if (p_reopen) {
     g_phase = "reopen";
     rc = ldb_open(g_dir, &g_opt, &g_db);
